@@ -61,6 +61,8 @@ CALLS = [
     dict(prog="small.fj", w=16, werror=False, depth=2000, mode="nostl"),
     dict(prog="leafy.fj", w=64, werror=True, depth=900, mode="nostl"),
     dict(prog="small.fj", w=64, werror=True, depth=5, mode="nostl"),
+    dict(prog="small.fj", w=64, werror=False, depth=900, mode="partial"),
+    dict(prog="small.fj", w=64, werror=True, depth=900, mode="partial"),
 ]
 
 
@@ -92,7 +94,7 @@ def run(chk: Check, replay=None):
     quick = chk.tier == "quick"
     rng = random.Random(chk.seed + 13)
     chk.assumptions += [
-        "call alphabet of 20 kinds; histories of <= 2 (quick: all pairs + sampled triples) or <= 3 calls followed by being compared call by call",
+        "call alphabet of 22 kinds; histories of <= 2 (quick: all pairs + sampled triples) or <= 3 calls followed by being compared call by call",
         "Pure is measured: one call per fresh process, in a different directory and under PYTHONHASHSEED 0/1/random; the three must agree",
     ]
     calls = [dict(c, id=i + 1) for i, c in enumerate(CALLS)]
